@@ -36,6 +36,8 @@ ATOM_TEXT = {
     "TALK": "Talk:x", "DOTS": "a/b/../../../c", "EPOCH": "@99999999999999999999", "BADDATE": "2020-13-45",
     "LT": "<", "KV": "x=y", "HASH": "#", "UP": "../x", "PCT": "%zz", "E": "e",
     "SUP": "\u00b2", "ARDIG": "\u0663",
+    "TS14BAD": "20230230120000", "TS14YR1": "00010101000000", "ATEXP": "@1e30", "DIGITS": "9" * 5000,
+    "DEEP": "(" * 200 + "1" + ")" * 200,
 }
 TITLE_TEXT = {"plain": "Test", "talk": "Talk:x", "nstalk": "Template talk:a/b", "user": "User:foo/bar"}
 UNKNOWN_NAMES = ["#nosuchfunction", "#foo bar"]
@@ -234,8 +236,8 @@ def run_b(o: Outcome, tier: str) -> None:
                 rec = {"kind": "b-call", "name": c["name"], "argv": c["argv"], "title": TITLE_TEXT[title], "wikitext": wt,
                        "observed": txt}
                 why = f"{wt} on page {TITLE_TEXT[title]!r} raised {txt}"
-                if c["asis"]["kind"] == "exc":
-                    dev = {"KeyError": "TalkNamespaceLookup", "IndexError": "Rel2absNeedsArgument",
+                if c["asis"]["kind"] == "exc" and (c["asis"]["via"] != "ValueError" or "4300 digits" in txt):
+                    dev = {"ValueError": "IntegerStringConversionLimit","KeyError": "TalkNamespaceLookup", "IndexError": "Rel2absNeedsArgument",
                            "OverflowError": "PadCountUnbounded", "ZeroDivisionError": "PadEmptyPaddingDivides"}.get(c["asis"]["via"], c["asis"]["via"])
                     o.classify(rec, why, [dev], cls=f"b-call-{c['name']}-{txt.split(':')[0]}")
                 else:
@@ -244,6 +246,18 @@ def run_b(o: Outcome, tier: str) -> None:
                 pdrift[c["name"]] += 1      # the as-is model predicted an escape that did not happen (fixed tree)
             elif c["exp"]["via"] == "error" and not ("error" in txt.lower()):
                 pdrift[c["name"] + ": value where an error string is predicted"] += 1
+    # the same conversion outside call_parser_function: numeric argument names
+    with pfcommon.Ctx() as cx:
+        for wt in ("{{t|" + ATOM_TEXT["DIGITS"] + "=x}}", "{{{" + ATOM_TEXT["DIGITS"] + "}}}", "{{t|" + ATOM_TEXT["SUP"] + "=x}}", "{{{" + ATOM_TEXT["ARDIG"] + "|d}}}"):
+            k, txt = cx.run(wt)[:2]
+            o.evaluations += 1
+            if k == "exc":
+                rec = {"kind": "b-call", "name": "argument name", "argv": [], "title": "Test", "wikitext": wt[:60] + ("..." if len(wt) > 60 else ""), "observed": txt}
+                why = f"{wt[:40]}... raised {txt}"
+                if "4300 digits" in txt:
+                    o.classify(rec, why, ["IntegerStringConversionLimit"], cls="b-argname-ValueError")
+                else:
+                    o.violation(rec, why, cls="b-argname")
     o.extra["dispatch_notes"] = dict(pdrift)
     c = pcases[len(pcases) // 2]
     o.sample({"call": call_text(c["name"], c["argv"]), "title": TITLE_TEXT[c["title"]], "predicted": c["exp"]})
